@@ -302,7 +302,6 @@ func isConnErr(err error, code http3Error) bool {
 //@   ensures  err != nil ==> isBareErr(err, errQPACKDecompressionFailed) && len(s) == 0
 //@   ensures  err == nil ==> st.stream == old(st.stream) && (old(st.lim) < 0 ==> st.lim == old(st.lim)) && (old(st.lim) >= 0 ==> 0 <= st.lim && st.lim <= old(st.lim))
 //@   ensures  err == nil && old(st.lim) >= 0 && uint64(firstByte) & (uint64(1) << prefixLen) == 0 ==> int64(len(s)) <= old(st.lim)
-//@   partial nopanic
 //@   modifies st.lim, st.stream, st.stream.inbuf, st.stream.inbufoff
 //@   allocates
 
@@ -416,7 +415,6 @@ func lemmaTNBits(bit byte) (ok bool) {
 //@   ensures  old(st.lim) < 0 ==> isBareErr(err, errH3FrameError) && st.lim == old(st.lim)
 //@   ensures  err == nil ==> int64(len(b)) == old(st.lim) && st.lim == 0
 //@   ensures  st.stream == old(st.stream)
-//@   partial nopanic
 //@   modifies st.lim, st.stream, st.stream.inbuf, st.stream.inbufoff
 //@   allocates
 
